@@ -39,7 +39,7 @@ def plain_bytes(p: dict) -> bytes:
     k, n = p["kind"], p["n"]
     if k == "zeros":
         return bytes(n)
-    if k == "pattern":
+    if k in ("pattern", "lines"):
         unit = pattern_unit(p)
         return (unit * (n // len(unit) + 1))[:n]
     r = random.Random(p.get("seed", 0))
@@ -68,6 +68,10 @@ def plain_bytes(p: dict) -> bytes:
 
 
 def pattern_unit(p: dict) -> bytes:
+    if p["kind"] == "lines":
+        # highly compressible text: lines of w bytes ("aaa...a\n"), the shape a line-oriented consumer can walk
+        w = max(1, p.get("w", 1000))
+        return b"a" * (w - 1) + b"\n"
     r = random.Random(p.get("seed", 0) * 31 + 7)
     return r.randbytes(r.choice((3, 17, 256, 1021)))
 
@@ -82,10 +86,10 @@ class Expect:
             self.n = len(data)
         else:
             self.n = p["n"]
-            if p["kind"] not in ("zeros", "pattern"):
+            if p["kind"] not in ("zeros", "pattern", "lines"):
                 self.data = plain_bytes(p)
                 self.n = len(self.data)
-            elif p["kind"] == "pattern":
+            elif p["kind"] in ("pattern", "lines"):
                 self.unit = pattern_unit(p)
 
     def matches(self, off: int, chunk: bytes) -> bool:
@@ -101,6 +105,25 @@ class Expect:
         s = off % len(u)
         exp = (u * ((ln + s) // len(u) + 2))[s : s + ln]
         return exp == chunk
+
+    def line_len(self, off: int, sep: int):
+        """(length, found): length of the piece of the plaintext that starts at `off` and ends with the first byte
+        `sep` at or after `off` (separator included); when there is none, the rest of the plaintext and found=False."""
+        rest = max(0, self.n - off)
+        if rest == 0:
+            return 0, False
+        sb = bytes([sep])
+        if self.data is not None:
+            i = self.data.find(sb, off)
+            return (i + 1 - off, True) if i >= 0 else (rest, False)
+        if self.p["kind"] == "zeros":
+            return (1, True) if sep == 0 else (rest, False)
+        u = self.unit
+        s = off % len(u)
+        i = (u + u).find(sb, s)
+        if i < 0 or i + 1 - s > rest:
+            return rest, False
+        return i + 1 - s, True
 
 
 # --------------------------------------------------------------------------------------------------
@@ -127,7 +150,7 @@ def encode(codec: str, data: bytes, level: int | None = None) -> bytes:
 def encode_plain(codec: str, p: dict) -> bytes:
     """Encode a (possibly huge) described plaintext piecewise, never holding it whole."""
     n = p["n"]
-    if p["kind"] not in ("zeros", "pattern") or n <= (1 << 20):
+    if p["kind"] not in ("zeros", "pattern", "lines") or n <= (1 << 20):
         return encode(codec, plain_bytes(p))
     if p["kind"] == "zeros":
         piece = bytes(1 << 20)
@@ -305,6 +328,74 @@ def ref_decode(token: str, data: bytes, step: int | None = None):
     raise ValueError(token)
 
 
+def member_table(token: str, data: bytes, window: int = 512):
+    """[(coded_end, decoded_end)] of every complete member of a gzip / deflate / zstd body, in stream order, by the
+    reference decoder (fed through a small window so that unused_data stays small)."""
+    if token in ("gzip", "deflate"):
+        wb = 31 if token == "gzip" else (15 if data[:1] and data[0] & 0xF == 8 else -15)
+        new, error = (lambda: zlib.decompressobj(wb)), zlib.error
+    elif token == "zstd":
+        new, error = zstd.ZstdDecompressor, zstd.ZstdError
+    else:
+        return []
+    table = []
+    d = new()
+    pos = 0
+    decoded = 0
+    n = len(data)
+    while pos < n:
+        if d.eof:
+            d = new()
+        piece = data[pos : pos + window]
+        try:
+            decoded += len(d.decompress(piece))
+        except error:
+            break
+        if d.eof:
+            pos += len(piece) - len(d.unused_data)
+            table.append((pos, decoded))
+        else:
+            pos += len(piece)
+    return table
+
+
+def member_sizes(case: dict):
+    """plaintext size of every member of a multi-member case: the explicit list `members`, or the compact
+    `flood` = {"m": count, "cycle": [sizes]} (member i holds cycle[i % len(cycle)] plaintext bytes)."""
+    if case.get("members"):
+        return case["members"]
+    f = case.get("flood")
+    if f:
+        cyc = f["cycle"]
+        return [cyc[i % len(cyc)] for i in range(f["m"])]
+    return None
+
+
+def flood_total(flood: dict) -> int:
+    cyc = flood["cycle"]
+    q, r = divmod(flood["m"], len(cyc))
+    return q * sum(cyc) + sum(cyc[:r])
+
+
+def member_coded(case: dict):
+    """the members of a multi-member case, each coded on its own"""
+    data = plain_bytes(case["plain"])
+    out = []
+    pos = 0
+    cache: dict = {}
+    for m in member_sizes(case):
+        piece = data[pos : pos + m]
+        pos += m
+        enc = cache.get(piece) if m <= 64 else None
+        if enc is None:
+            enc = encode(case["codec"], piece)
+            if m <= 64:
+                cache[piece] = enc
+        out.append(enc)
+    assert pos == len(data), (pos, len(data))
+    return out, data
+
+
 # --------------------------------------------------------------------------------------------------
 # wire framing
 
@@ -320,6 +411,20 @@ def chunk_sizes(plan: dict, total: int) -> list[int]:
         out = [n] * (total // n)
         if total % n:
             out.append(total % n)
+        return out
+    if k == "explicit":
+        # given sizes (e.g. whole members per chunk), clipped to the body; what is left goes into a last chunk
+        out = []
+        left = total
+        for c in plan["sizes"]:
+            c = min(c, left)
+            if c:
+                out.append(c)
+                left -= c
+            if not left:
+                break
+        if left:
+            out.append(left)
         return out
     if k == "random":
         r = random.Random(plan["seed"])
@@ -397,16 +502,9 @@ def build_body(case: dict):
     """Returns (coded body bytes before mutation, Expect for the intended plaintext or None)."""
     codec = case["codec"]
     p = case["plain"]
-    members = case.get("members")
-    if members:
-        data = plain_bytes(p)
-        out = bytearray()
-        pos = 0
-        for m in members:
-            out += encode(codec, data[pos : pos + m])
-            pos += m
-        assert pos == len(data), (pos, len(data))
-        return bytes(out), Expect(data=data)
+    if member_sizes(case):
+        coded, data = member_coded(case)
+        return b"".join(coded), Expect(data=data)
     if case.get("level") is not None:
         data = plain_bytes(p)
         return encode(codec, data, case["level"]), Expect(data=data)
